@@ -73,6 +73,8 @@ def inline_body(raw, lookup, helpers, depth=0, stack=()):
                 break
         if site is None:
             break
+        if len(work["blocks"]) > 20 * MAX_BLOCKS:
+            raise RuntimeError("inlining of helpers into %s does not converge (more than %d blocks)" % (work["path"], 20 * MAX_BLOCKS))
         i, r, callee = site
         callee = inline_body(callee, lookup, helpers, depth + 1, stack + (work["path"],))
         if work is raw:
